@@ -21,7 +21,8 @@
 (* admits (err: 0 = Ok, k > 0 = OS error k, NOCODE = an error without OS    *)
 (* code; n = returned count; buf = final buffer / sink; pos = bytes taken  *)
 (* from the reader).  Where the statement is silent (buffer contents after *)
-(* an error; which of two errors wins) every reading is admitted.          *)
+(* an error) every reading is admitted; the error surfaced is always the   *)
+(* scripted one (errno compared).                                          *)
 (*                                                                         *)
 (* PART 2 (algorithm level): a transcription of the code in                *)
 (* tiny-std/src/io.rs + io/read_buf.rs as a state machine, one step per    *)
@@ -100,7 +101,10 @@ ReadToStringOK(o, init, data, s) ==
         /\ IF tm.t = "eof"
            THEN IF IsUtf8(st) THEN o.err = 0 /\ o.n = a /\ o.buf = init \o st
                               ELSE o.err # 0 /\ o.buf = init
-           ELSE /\ o.err = tm.k \/ (~IsUtf8(st) /\ o.err # 0)
+           \* "surface any other error": the reader's own error, with its errno, whatever the bytes
+           \* delivered so far look like (a split character, invalid bytes): the invalid-UTF-8 error
+           \* is admissible only when the reader ended with end of file
+           ELSE /\ o.err = tm.k
                 /\ IsPrefix(init, o.buf) /\ IsPrefix(o.buf, init \o st)
 
 \* read_exact(n): Ok and exactly the first n bytes, nothing more taken from the reader, if the
